@@ -42,10 +42,11 @@ theorem res_step (st : Option (Nat × Nat)) (out : List (Int × Int)) (c : Nat) 
   | some se =>
     obtain ⟨s, e⟩ := se
     by_cases h : e = c
-    · have : ((e : Int) = (c : Int)) := by omega
-      simp [pendI, h]
-    · have : ¬ ((e : Int) = (c : Int)) := by omega
-      simp [pendI, h, this]
+    · subst h
+      simp [pendI]
+    · have t1 : ¬ ((e : Int) = (c : Int)) := by omega
+      have t2 : ¬ ((c : Int) = (e : Int)) := by omega
+      simp [pendI, h, t1, t2]
 
 theorem res_loop (chip : Option (Nat × Nat)) : ∀ (cs : List Nat) (st : Option (Nat × Nat)) (out : List (Int × Int)),
     finish ((cs.map (fun (c : Nat) => (c : Int))).foldl PyFun.get_minimal_core_reservations_loop1 (pendI st, out))
